@@ -508,6 +508,17 @@ class Core(composites.Composite):
                 )
             )
 
+        # likewise refuse a location outside of the represented domain before anything is changed
+        if targetLocator is not None:
+            # transfer spatialLocator to Core one
+            targetLocator = self.spatialGrid[tuple(targetLocator.indices)]
+            if not self.spatialGrid.locatorInDomain(targetLocator, symmetryOverlap=True):
+                raise LookupError(
+                    "Location `{}` outside of the represented domain: `{}`".format(
+                        targetLocator, self.spatialGrid.symmetry.domain
+                    )
+                )
+
         # Negative assembly IDs are placeholders, and we need to renumber the assembly
         if a.p.assemNum < 0:
             a.renumber(self.r.incrementAssemNum())
@@ -525,19 +536,9 @@ class Core(composites.Composite):
         composites.Composite.add(self, a)
         aName = a.getName()
 
-        spatialLocator = spatialLocator or a.spatialLocator
+        spatialLocator = targetLocator
 
         if spatialLocator is not None:
-            # transfer spatialLocator to Core one
-            spatialLocator = self.spatialGrid[tuple(spatialLocator.indices)]
-            if not self.spatialGrid.locatorInDomain(
-                spatialLocator, symmetryOverlap=True
-            ):
-                raise LookupError(
-                    "Location `{}` outside of the represented domain: `{}`".format(
-                        spatialLocator, self.spatialGrid.symmetry.domain
-                    )
-                )
             a.moveTo(spatialLocator)
 
         self.childrenByLocator[spatialLocator] = a
